@@ -66,6 +66,8 @@ type HookSpec struct {
 	Gate      bool      `json:"gate,omitempty"`
 	// Func overrides the hook expression of a call role ("" = verif.Probe()).
 	Func string `json:"func,omitempty"`
+	// Return names the variable that receives the call's result (`return:` of a call role; "" = omitted).
+	Return string `json:"return,omitempty"`
 	// SleepMs is how long a CallSlow invocation takes.
 	SleepMs int `json:"sleep_ms,omitempty"`
 	// OnlyInv restricts Behaviour and Gate to the n-th invocation (1-based) of the hook; 0 = every invocation.
@@ -235,6 +237,9 @@ func Workflow(name string, hooks []HookSpec) string {
 				fn = "verif.Probe()"
 			}
 			fmt.Fprintf(&sb, "    call:\n      func: %q\n", fn)
+			if h.Return != "" {
+				fmt.Fprintf(&sb, "      return: %q\n", h.Return)
+			}
 		}
 		fmt.Fprintf(&sb, "      trigger: %q\n", h.Trigger)
 		if h.Await != "" {
